@@ -235,7 +235,8 @@ def handle (ss : Session) : P (Session × String) := do
       let b (x : Bool) : String := if x then "1" else "0"
       pure (ss, s!"ok v2to1={b s.v2ToV1} v3to2={b s.v3ToV2} tr={b s.timeResSent} warn={b s.warnOutdated} " ++
         s!"{sreq .setupDone} {sreq (.step 3)} {sreq .getData} {sreq .other} " ++
-        s!"type={match Adapters.metaType s none with | some t => toString t | none => "-"}")
+        s!"type={match Adapters.metaType s none with | some t => toString t | none => "-"} " ++
+        s!"etype={match Adapters.metaType s (some 2) with | some t => toString t | none => "-"}")
   -- bulk connection helpers
   | "evenly" => do
     let srcs ← listOf nat; let dests ← listOf nat; let orc ← listOf nat
